@@ -20,18 +20,48 @@ RULE = ("for each shape in {TS, TSS, TSD<Int,TS>, TSD<Int,TSS>, TSD<Str,TSB>, TS
 ASSUMPTIONS = ["the harness copies the whole GlobalState of stage k into the builder of stage k+1 (GlobalStateView::copy_from)",
                "buffers are compared through ValueView::to_string()", "g++-12 -O1 build of the working tree with harness-side shims"]
 FLOORS = {"replayed_ticks_compared": {"quick": 3000, "thorough": 50000}, "copy_ticks_compared": {"quick": 3000, "thorough": 50000},
-          "buffers_compared": {"quick": 200, "thorough": 3500}, }
+          "buffers_compared": {"quick": 200, "thorough": 3500}, "long_dense_recordings": {"quick": 15, "thorough": 250}}
 BATCH = 20
 MECH_EMPTY = "replay-drops-empty-structural-delta-tick"
+
+
+def dense_then_gap(rng, sh, end):
+    """Long recordings: a tick on EVERY cycle for 64..130 cycles, then the first skipped cycle(s), then more ticks (the dense
+    recorder sizes its per-cycle validity information at the first gap, whatever the length recorded so far)."""
+    from .collmodel import Node
+    from .gen_coll import gen_op
+    node, out = Node(SHAPES[sh]), []
+    gap_at = rng.choice([64, 65, 66, 70, 100, 128, 129])
+    gap_len = rng.choice([1, 1, 2, 5])
+    for t in range(0, end):
+        if gap_at <= t < gap_at + gap_len:
+            continue
+        if t > gap_at + gap_len and rng.random() < 0.3:
+            continue
+        ops = []
+        for _ in range(rng.choice([1, 1, 2])):
+            op = gen_op(rng, node, True, 6, False)
+            if op:
+                node.apply(op, t)
+                ops.append(op)
+            if sh == "tsw":
+                break
+        if ops:
+            out.append(f"{t}|" + ",".join(ops))
+    return out
 
 
 def gen_case20(rng, name):
     start = 0 if rng.random() < 0.93 else rng.choice([2, 3, 5])
     end = start + rng.choice([15, 30, 45])
+    long_run = start == 0 and rng.random() < 0.12
+    if long_run:
+        end = rng.choice([90, 140])
     c = Case(name, start, end)
     sh = rng.choice(list(SHAPES))
     c.meta["shape"] = sh
-    c.cscripts[1] = gen_cscript(rng, sh, start, end)
+    c.cscripts[1] = dense_then_gap(rng, sh, end) if long_run else gen_cscript(rng, sh, start, end)
+    c.meta["long_run"] = 1 if long_run else 0
     c.opts["gsdump"] = "r1,r2,r3"
     c.graphs["main"] = [S("d", "csrc", shape=sh, uid=1), S("", "cmirror", "d", uid=10), S("", "crecord", "d", key="r1"),
                         S("c1", "ccopy", "d", uid=20), S("", "cmirror", "c1", uid=21),
@@ -329,7 +359,8 @@ def check(case, tr):
         res.violations.append(Violation(msg))
     for mech, msg in known.items():
         res.violations.append(Violation(msg, mech))
-    res.counters = {"replayed_ticks_compared": rep_cmp, "copy_ticks_compared": copy_cmp, "buffers_compared": bufcmp,
+    res.counters = {"long_dense_recordings": case.meta.get("long_run", 0),
+                    "replayed_ticks_compared": rep_cmp, "copy_ticks_compared": copy_cmp, "buffers_compared": bufcmp,
                     "known_deviation_cases": 1 if known else 0}
     res.nontrivial = len(d0) >= 4
     return res
